@@ -24,7 +24,7 @@ func init() {
 var c09Ns = []int{1, 2, 3, 5, 17, 100, 1000}
 
 // skip patterns: never, always, every j-th invocation, data dependent with a rate
-var c09Sigmas = []string{"never", "always", "every2", "every3", "every11", "rate5", "rate30", "rate50", "rate80", "rate91", "rate95", "first9of10", "cleanup-always", "cleanup-rate50"}
+var c09Sigmas = []string{"never", "always", "every2", "every3", "every11", "rate5", "rate30", "rate50", "rate80", "rate91", "rate95", "first9of10", "cleanup-always", "cleanup-rate50", "invariant-rate30", "invariant-rate80"}
 
 func c09Scenarios(cfg runCfg) []Scenario {
 	var out []Scenario
@@ -171,6 +171,22 @@ func c09Run(t *testing.T, sc Scenario, res *Result) {
 			}
 			if skip {
 				x.skip(sigma)
+			}
+			if strings.HasPrefix(sigma, "invariant-rate") {
+				// the case is made invalid by a Skip from the invariant of a state machine, after some action has drawn
+				// a value: that invalidates the test case (it is not an action that turned out to be non-applicable)
+				var pct int
+				fmt.Sscanf(sigma, "invariant-rate%d", &pct)
+				st := h
+				me := x
+				x.t.Repeat(map[string]func(*rapid.T){
+					"a": func(t *rapid.T) { st = mix(st, uint64(rapid.Uint8().Draw(t, "a"))) },
+					"": func(t *rapid.T) {
+						if st != h && st%100 < uint64(pct)/4 {
+							me.skip(sigma)
+						}
+					},
+				})
 			}
 		}
 		name := fmt.Sprintf("C09_%x", sc.Seed&0xffffff)
